@@ -96,9 +96,9 @@ def scalars(t):
     if t in D.INT_TYPES:
         return [['i', t, v] for v in D.int_lattice(t)]
     if t == 'real32':
-        return [D.fspec(D.float32_round(f), 'real32') for f in REAL32]
+        return [D.fspec(D.float32_round(f), 'real32') for f in REAL32 + D.DECIMAL_REALS32]
     if t == 'real64':
-        return [D.fspec(f, 'real64') for f in REAL64]
+        return [D.fspec(f, 'real64') for f in REAL64 + D.DECIMAL_REALS]
     if t == 'reference':
         return REFS
     raise ValueError(t)
